@@ -1428,6 +1428,13 @@ func enumCache(keys []int, withSet bool, limit int, rng *rand.Rand, emit func(c,
 				r := runCache(keys, full)
 				count++
 				emit(head+actsStr(full), r.reply)
+			} else {
+				for _, m := range setMaps { // SetMap after everything has returned
+					full := append(append([]cact(nil), prefix...), cact{kind: 'S', m: m}, cact{kind: 'G'})
+					r := runCache(keys, full)
+					count++
+					emit(head+actsStr(full), r.reply)
+				}
 			}
 			return
 		}
@@ -1444,8 +1451,15 @@ func enumCache(keys []int, withSet bool, limit int, rng *rand.Rand, emit func(c,
 		for _, a := range next {
 			dfs(append(append([]cact(nil), prefix...), a), setUsed)
 		}
-		if withSet && !setUsed && len(prefix) > 0 && (cr.started < len(keys) || len(cr.fetching) > 0) {
-			for _, m := range setMaps {
+		// one SetMap (+ GetMap) per schedule. At every QUIESCENT point (no fetch in flight: start, between calls, end) always — that is how the
+		// clients use it (loading a saved cache) and the hypothesis of C16_cache_linearizable_partial; while a fetch is in flight (outside that
+		// hypothesis: only provenance / single flight / counts are judged) for every point of the small configurations and one map otherwise.
+		if withSet && !setUsed {
+			quiescent := len(cr.fetching) == 0
+			for i, m := range setMaps {
+				if !quiescent && len(keys) > 2 && i != 1 {
+					continue
+				}
 				dfs(append(append([]cact(nil), prefix...), cact{kind: 'S', m: m}, cact{kind: 'G'}), true)
 			}
 		}
